@@ -226,6 +226,33 @@ pub fn gen(rng: &mut ChaCha20Rng, n: usize, thorough: bool) -> Vec<Case> {
     // read_uint with every size 0..=17 (F19 for sizes >= 9 when that many bytes are there)
     out.push(mk(format!("C10 ruint {} 9 {}", prof, hex(&[1u8; 9])), &["ep:script::read_uint", "src:fixed-F19"], true));
     for size in 0..=17usize { for extra in [0isize, -1, 3] { let l = (size as isize + extra).max(0) as usize; out.push(mk(format!("C10 ruint {} {} {}", prof, size, hexd(&rbytes(rng, l))), &["ep:script::read_uint", "src:sizes"], true)); } }
+    // ------------------------------------------------------------------ the small fallible integer constructors, boundary integers
+    {
+        let mut b32: Vec<u64> = vec![0, 1, 2, 3, 511, 512, 513, 1023, 1024, 0x80, 0x81, 0x82, 0x83, 0x84, 0xff, 0x100, 0x101, 0xfffe, 0xffff, 0x10000, 0x10001,
+            499_999_999, 500_000_000, 500_000_001, 65535 * 512 - 1, 65535 * 512, 65535 * 512 + 1, 65536 * 512 - 1, 65536 * 512, 65536 * 512 + 1, 65536 * 512 + 511, 65536 * 512 + 512];
+        for k in 1..32u32 { for d in [-1i64, 0, 1] { b32.push(((1i64 << k) + d) as u64); } }
+        for k in 0..=16u64 { b32.push(u32::MAX as u64 - k); }
+        for k in [509u64, 510, 511, 512, 513, 600] { b32.push(u32::MAX as u64 - k); }
+        b32.sort(); b32.dedup();
+        // the two arithmetic ones get every MAX - k, k <= 600, and every multiple of 512 next to the limit
+        let mut arith = b32.clone();
+        for k in 0..=600u64 { arith.push(u32::MAX as u64 - k); }
+        for m in 65530..=65540u64 { for d in [0u64, 1, 511] { arith.push(m * 512 + d); } }
+        for _ in 0..n { arith.push(rng.gen::<u32>() as u64); }
+        arith.sort(); arith.dedup();
+        for f in ["seqfloor", "seqceil"] { for v in &arith { out.push(mk(format!("C10 ctor {} {} {}", prof, f, v), &["ep:Sequence::from_seconds", "src:boundary-integers"], true)); } }
+        for f in ["ltconsensus", "ltheight", "lttime", "height", "time", "ecdsastd", "psbtecdsa", "psbtschnorr"] {
+            for v in &b32 { out.push(mk(format!("C10 ctor {} {} {}", prof, f, v), &[&format!("ep:ctor-{}", f), "src:boundary-integers"], true)); } }
+        for f in ["seqheight", "seq512"] { for v in b32.iter().filter(|v| **v < 65536) { out.push(mk(format!("C10 ctor {} {} {}", prof, f, v), &[&format!("ep:ctor-{}", f), "src:boundary-integers"], true)); } }
+        for f in ["schnorr", "leafver", "ordinary"] { for v in 0..256u64 { out.push(mk(format!("C10 ctor {} {} {}", prof, f, v), &[&format!("ep:ctor-{}", f), "src:all-bytes"], true)); } }
+        // slice / string constructors: boundary lengths and a few contents
+        for l in [0usize, 1, 2, 4, 8, 19, 20, 21, 31, 32, 33, 34, 36, 40, 63, 64, 65, 66, 96, 97, 4096, 4128, 4160] {
+            for fill in [0x00u8, 0x50, 0xff] { out.push(mk(format!("C10 x-ctor {}", hexd(&vec![fill; l])), &["ep:explore-slice-constructors", "src:boundary-lengths"], true)); }
+            let r = rbytes(rng, l); out.push(mk(format!("C10 x-ctor {}", hexd(&r)), &["ep:explore-slice-constructors", "src:boundary-lengths"], true));
+            let hx = hex(&r); out.push(mk(format!("C10 x-ctor {}", hexd(hx.as_bytes())), &["ep:explore-slice-constructors", "src:hex-text"], true));
+        }
+        for t in ["0", "499999999", "500000000", "4294967295", "4294967296", "-1", "0x10", "+5", ""] { out.push(mk(format!("C10 x-ctor {}", hexd(t.as_bytes())), &["ep:explore-slice-constructors", "src:number-text"], true)); }
+    }
     // ------------------------------------------------------------------ addresses and blech32 strings
     let mut addrs: Vec<String> = Vec::new();
     for k in 0..(n / 6).max(12) {
@@ -234,6 +261,9 @@ pub fn gen(rng: &mut ChaCha20Rng, n: usize, thorough: bool) -> Vec<Case> {
         addrs.push(a.to_string());
     }
     for s in ["1", "a1", "a1q", "11", "a", "", "1q", "A1Q", "a1Q", "é1q", "a1é", "tex1q", "el1qq", "lq1qq", "ert1q", "ex1", "tlq1", "a11", "ab1cd1"] { if !s.is_empty() { addrs.push(s.to_string()); } }
+    // base58check strings of short payloads (the empty payload first), with each network's version bytes in front
+    for l in 0..=3usize { for p0 in [0u8, 57, 39, 12, 235, 75, 4, 36, 19, 23] { let mut d = vec![p0; l.min(1)]; d.extend(vec![7u8; l.saturating_sub(1)]); addrs.push(elements::bitcoin::base58::encode_check(&d)); } }
+    for l in [20usize, 21, 22, 53, 54, 55] { for p0 in [57u8, 39, 12, 4, 235, 75, 36, 19, 23] { let mut d = vec![p0]; d.extend(vec![9u8; l - 1]); addrs.push(elements::bitcoin::base58::encode_check(&d)); } }
     let mut strs: Vec<(String, &str)> = addrs.iter().map(|a| (a.clone(), "src:valid-or-fixed")).collect();
     for _ in 0..2 * n { let a = addrs[rng.gen_range(0..addrs.len())].clone(); let mut m = mutate_string(rng, &a); if rng.gen_range(0..3) == 0 { m = mutate_string(rng, &m); } strs.push((m, "src:mutated")); }
     for _ in 0..n { let s = rstring(rng, 14); if !s.is_empty() { strs.push((s, "src:random-string")); } }
